@@ -2,17 +2,20 @@
    One Gallina function per Go function; stored heights and maxima are kept as fields, exactly
    as the code stores them (so that "stored = real" is a theorem and not a definition).
    Go `int` is modelled as unbounded Z: the property is not about overflow and the tree only
-   compares and copies the bounds (height arithmetic stays below 64). *)
+   compares and copies the bounds (height arithmetic stays below 64).
+   Items: the Go tree stores values of an arbitrary type T and reads them only through
+   GetLow/GetHigh.  An item is modelled as (low, high, tag); the tag stands for the rest of the
+   payload, is copied wherever the Go code copies `item`, and is never inspected. *)
 From Coq Require Import ZArith List Bool.
 Import ListNotations.
 Open Scope Z_scope.
 
 Inductive tree : Type :=
 | Leaf : tree
-| Node : tree -> Z -> Z -> Z -> Z -> tree -> tree.   (* left, low, high, max, height, right *)
+| Node : tree -> Z -> Z -> Z -> Z -> Z -> tree -> tree.   (* left, low, high, tag, max, height, right *)
 
 Definition height (t : tree) : Z :=
-  match t with Leaf => 0 | Node _ _ _ _ h _ => h end.
+  match t with Leaf => 0 | Node _ _ _ _ _ h _ => h end.
 
 (* less(a, b): (low, high) lexicographic order, the search key *)
 Definition less (alo ahi blo bhi : Z) : bool :=
@@ -21,42 +24,42 @@ Definition less (alo ahi blo bhi : Z) : bool :=
 (* updateHeight + updateMax on a node whose children and item are given *)
 Definition upd_max (l : tree) (hi : Z) (r : tree) : Z :=
   let m0 := hi in
-  let m1 := match l with Leaf => m0 | Node _ _ _ ml _ _ => if ml >? m0 then ml else m0 end in
-  match r with Leaf => m1 | Node _ _ _ mr _ _ => if mr >? m1 then mr else m1 end.
+  let m1 := match l with Leaf => m0 | Node _ _ _ _ ml _ _ => if ml >? m0 then ml else m0 end in
+  match r with Leaf => m1 | Node _ _ _ _ mr _ _ => if mr >? m1 then mr else m1 end.
 
-Definition mk (l : tree) (lo hi : Z) (r : tree) : tree :=
-  Node l lo hi (upd_max l hi r) (1 + Z.max (height l) (height r)) r.
+Definition mk (l : tree) (lo hi tg : Z) (r : tree) : tree :=
+  Node l lo hi tg (upd_max l hi r) (1 + Z.max (height l) (height r)) r.
 
 Definition balance_factor (t : tree) : Z :=
-  match t with Leaf => 0 | Node l _ _ _ _ r => height l - height r end.
+  match t with Leaf => 0 | Node l _ _ _ _ _ r => height l - height r end.
 
 (* rotateRight / rotateLeft.  The Go code dereferences n.left / n.right unconditionally; the
    model returns the tree unchanged there and `rot_defined` (Proofs) shows the branch is dead. *)
 Definition rotate_right (t : tree) : tree :=
   match t with
-  | Node (Node ll llo lhi _ _ lr) lo hi _ _ r => mk ll llo lhi (mk lr lo hi r)
+  | Node (Node ll llo lhi ltg _ _ lr) lo hi tg _ _ r => mk ll llo lhi ltg (mk lr lo hi tg r)
   | _ => t
   end.
 
 Definition rotate_left (t : tree) : tree :=
   match t with
-  | Node l lo hi _ _ (Node rl rlo rhi _ _ rr) => mk (mk l lo hi rl) rlo rhi rr
+  | Node l lo hi tg _ _ (Node rl rlo rhi rtg _ _ rr) => mk (mk l lo hi tg rl) rlo rhi rtg rr
   | _ => t
   end.
 
 Definition set_left (t : tree) (l' : tree) : tree :=
-  match t with Node _ lo hi m h r => Node l' lo hi m h r | Leaf => Leaf end.
+  match t with Node _ lo hi tg m h r => Node l' lo hi tg m h r | Leaf => Leaf end.
 Definition set_right (t : tree) (r' : tree) : tree :=
-  match t with Node l lo hi m h _ => Node l lo hi m h r' | Leaf => Leaf end.
-Definition left (t : tree) := match t with Node l _ _ _ _ _ => l | Leaf => Leaf end.
-Definition right (t : tree) := match t with Node _ _ _ _ _ r => r | Leaf => Leaf end.
+  match t with Node l lo hi tg m h _ => Node l lo hi tg m h r' | Leaf => Leaf end.
+Definition left (t : tree) := match t with Node l _ _ _ _ _ _ => l | Leaf => Leaf end.
+Definition right (t : tree) := match t with Node _ _ _ _ _ _ r => r | Leaf => Leaf end.
 
 (* the rebalancing tail of insertNode: `root` has fresh height/max *)
 Definition rebalance_ins (ilo ihi : Z) (root : tree) : tree :=
   let b := balance_factor root in
   if b >? 1 then
     match left root with
-    | Node _ llo lhi _ _ _ =>
+    | Node _ llo lhi _ _ _ _ =>
         if negb (less ilo ihi llo lhi)
         then rotate_right (set_left root (rotate_left (left root)))
         else rotate_right root
@@ -64,7 +67,7 @@ Definition rebalance_ins (ilo ihi : Z) (root : tree) : tree :=
     end
   else if b <? -1 then
     match right root with
-    | Node _ rlo rhi _ _ _ =>
+    | Node _ rlo rhi _ _ _ _ =>
         if less ilo ihi rlo rhi
         then rotate_left (set_right root (rotate_right (right root)))
         else rotate_left root
@@ -72,20 +75,20 @@ Definition rebalance_ins (ilo ihi : Z) (root : tree) : tree :=
     end
   else root.
 
-Fixpoint ins (ilo ihi : Z) (t : tree) : tree :=
+Fixpoint ins (ilo ihi itg : Z) (t : tree) : tree :=
   match t with
-  | Leaf => Node Leaf ilo ihi ihi 1 Leaf
-  | Node l lo hi _ _ r =>
+  | Leaf => Node Leaf ilo ihi itg ihi 1 Leaf
+  | Node l lo hi tg _ _ r =>
       if less ilo ihi lo hi
-      then rebalance_ins ilo ihi (mk (ins ilo ihi l) lo hi r)
-      else rebalance_ins ilo ihi (mk l lo hi (ins ilo ihi r))
+      then rebalance_ins ilo ihi (mk (ins ilo ihi itg l) lo hi tg r)
+      else rebalance_ins ilo ihi (mk l lo hi tg (ins ilo ihi itg r))
   end.
 
 (* findMin: leftmost node's item *)
-Fixpoint find_min (lo hi : Z) (l : tree) : Z * Z :=
+Fixpoint find_min (lo hi tg : Z) (l : tree) : Z * Z * Z :=
   match l with
-  | Leaf => (lo, hi)
-  | Node ll llo lhi _ _ _ => find_min llo lhi ll
+  | Leaf => (lo, hi, tg)
+  | Node ll llo lhi ltg _ _ _ => find_min llo lhi ltg ll
   end.
 
 Definition rebalance_del (root : tree) : tree :=
@@ -100,36 +103,50 @@ Definition rebalance_del (root : tree) : tree :=
     else rotate_left root
   else root.
 
+(* removeMin: unlinks the leftmost node; the second component counts the `t.size--` statements
+   executed.  The Go code is only called on a non-nil subtree (it reads root.left first); the
+   model returns (Leaf, 0) there and `rot_defined` covers it (ModelChk.v: None). *)
+Fixpoint remove_min (t : tree) : tree * Z :=
+  match t with
+  | Leaf => (Leaf, 0)
+  | Node l lo hi tg _ _ r =>
+      match l with
+      | Leaf => (r, 1)
+      | _ => let '(l', k) := remove_min l in (rebalance_del (mk l' lo hi tg r), k)
+      end
+  end.
+
 (* deleteNode; the second component counts the `t.size--` statements executed
    (one per node actually unlinked) *)
 Fixpoint del (t : tree) (dlo dhi : Z) : tree * Z :=
   match t with
   | Leaf => (Leaf, 0)
-  | Node l lo hi _ _ r =>
+  | Node l lo hi tg _ _ r =>
       if less dlo dhi lo hi then
-        let '(l', k) := del l dlo dhi in (rebalance_del (mk l' lo hi r), k)
+        let '(l', k) := del l dlo dhi in (rebalance_del (mk l' lo hi tg r), k)
       else if less lo hi dlo dhi then
-        let '(r', k) := del r dlo dhi in (rebalance_del (mk l lo hi r'), k)
+        let '(r', k) := del r dlo dhi in (rebalance_del (mk l lo hi tg r'), k)
       else
         match l, r with
         | Leaf, _ => (r, 1)
         | _, Leaf => (l, 1)
-        | _, Node rl rlo rhi _ _ _ =>
-            let '(slo, shi) := find_min rlo rhi rl in
-            let '(r', k) := del r slo shi in
-            (rebalance_del (mk l slo shi r'), k)
+        | _, Node rl rlo rhi rtg _ _ _ =>
+            let '(slo, shi, stg) := find_min rlo rhi rtg rl in
+            let '(r', k) := remove_min r in
+            (rebalance_del (mk l slo shi stg r'), k)
         end
   end.
 
 Record t := { root : tree; size : Z }.
 Definition empty : t := {| root := Leaf; size := 0 |}.
 
-Inductive op := Insert (lo hi : Z) | Delete (lo hi : Z) | Clear.
+(* Delete(item) reads only the bounds of its argument *)
+Inductive op := Insert (lo hi tg : Z) | Delete (lo hi : Z) | Clear.
 
 Definition step (s : t) (o : op) : t :=
   match o with
-  | Insert lo hi =>
-      if lo >? hi then s else {| root := ins lo hi (root s); size := size s + 1 |}
+  | Insert lo hi tg =>
+      if lo >? hi then s else {| root := ins lo hi tg (root s); size := size s + 1 |}
   | Delete lo hi =>
       let '(r, k) := del (root s) lo hi in {| root := r; size := size s - k |}
   | Clear => empty
@@ -137,17 +154,25 @@ Definition step (s : t) (o : op) : t :=
 
 Definition run (ops : list op) : t := fold_left step ops empty.
 
+(* GetAllIntervals: the stored items in order ... *)
+Fixpoint items (t : tree) : list (Z * Z * Z) :=
+  match t with
+  | Leaf => []
+  | Node l lo hi tg _ _ r => items l ++ (lo, hi, tg) :: items r
+  end.
+
+(* ... and their bounds *)
 Fixpoint inorder (t : tree) : list (Z * Z) :=
   match t with
   | Leaf => []
-  | Node l lo hi _ _ r => inorder l ++ (lo, hi) :: inorder r
+  | Node l lo hi _ _ _ r => inorder l ++ (lo, hi) :: inorder r
   end.
 
 (* intersectsNode *)
 Fixpoint intersects_node (t : tree) (low high : Z) : bool :=
   match t with
   | Leaf => false
-  | Node l lo hi mx _ r =>
+  | Node l lo hi _ mx _ r =>
       if mx <? low then false
       else if (lo <=? high) && (low <=? hi) then true
       else if (low <? lo) && intersects_node l low high then true
@@ -161,7 +186,7 @@ Definition intersects (s : t) (low high : Z) : bool :=
 Fixpoint check_other (t : tree) (low high slo shi : Z) : bool :=
   match t with
   | Leaf => false
-  | Node l lo hi mx _ r =>
+  | Node l lo hi _ mx _ r =>
       if mx <? low then false
       else
         let same := (lo =? slo) && (hi =? shi) in
